@@ -30,6 +30,7 @@ func (c *Ctx) codeRedeemFns() []*ssa.Function {
 }
 
 func runC01(c *Ctx) {
+	defer checkCanHandleExact(c, "C01.R6")
 	defer checkStoreKeyed(c, "C01.R5", storeRow{meth: "CreateAuthorizeCodeSession", table: "AuthorizeCodes", op: "create", key: 2}, storeRow{meth: "GetAuthorizeCodeSession", table: "AuthorizeCodes", op: "get", key: 2}, storeRow{meth: "InvalidateAuthorizeCodeSession", table: "AuthorizeCodes", op: "invalidate", key: 2})
 	c01R1(c)
 	c01R2(c)
@@ -359,7 +360,7 @@ func c01R5(c *Ctx) {
 			wrote := false
 			for _, e := range p.Events {
 				if e.Kind == "mapupdate" && isStoreMap(e.Args[0], "AuthorizeCodes") {
-					if activeOf(p, e.Args[2]) == "false" {
+					if activeOf(p, e.Args[2], e) == "false" {
 						wrote = true
 					} else {
 						bad = true
@@ -467,7 +468,9 @@ func isStoreMap(t *Term, name string) bool {
 
 // activeOf extracts the value of field "active" of a struct value term built on
 // the path: either a local cell whose field was stored, or a literal.
-func activeOf(p *Path, v *Term) string {
+// activeOf: the value of field active of the struct value v as of event `at` (stores after the
+// map update do not reach the stored copy).
+func activeOf(p *Path, v *Term, at ...*Event) string {
 	// struct values are loaded from a cell: find the last lstore to addr:active(<cell>) — the
 	// explorer records them as lstore events.
 	var root *Term
@@ -479,6 +482,9 @@ func activeOf(p *Path, v *Term) string {
 	})
 	res := "unknown"
 	for _, e := range p.Events {
+		if len(at) > 0 && at[0] != nil && e.Idx > at[0].Idx {
+			break
+		}
 		if e.Kind != "lstore" || e.Name != "active" {
 			continue
 		}
